@@ -357,7 +357,7 @@ func verifC17Case(vc *verifCtx, i int) {
 func TestVerifC17(t *testing.T) {
 	vc := verifStart(t, "C17", "closetx")
 	defer vc.Finish()
-	total := vc.N(500, 15000)
+	total := vc.N(500, 5000)
 	for i := 0; i < total; i++ {
 		if !vc.Mine(i) {
 			continue
